@@ -44,6 +44,11 @@ def token_ops(rng, tier):
     return ops
 
 
+from verifkit.props import C08 as _C08
+THM_MODULES = THM_MODULES + [m for m in _C08.C07_DERIVED_MODULES if m not in THM_MODULES]
+REQUIRED = REQUIRED + [t for t in _C08.C07_DERIVED_REQUIRED if t not in REQUIRED]
+
+
 def prepare(seed, tier):
     from verifkit.props import C08
     C08.prepare(seed, tier)          # regenerates the crate of derived types (harness/dgen) from the seed
